@@ -125,10 +125,10 @@ PROPS = {
         "bounds": "one-variable canonical substitutions (identity, or ground with ids fixed per class: equal / different - "
                   "combine depends on its arguments only through equalities), binder universe symbolic, at most one lifetime "
                   "constraint; one query per ordered pair of candidate kinds; unwind 6",
-        "outside": "28 of the 97 ordered pairs do not finish under CBMC within 300 s and are NOT part of the claim: every "
-                   "pair whose two candidates are equal (deep equality of separately interned equal terms through "
-                   "pointers read back out of Solution) and most pairs with the constrained-identity Unique candidate "
-                   "(listed in harness/solve/src/c13_pairs.rs); declaration-order independence of WHOLE solves (program lowering, clause enumeration, "
+        "outside": "the 16 ordered pairs with the constrained-identity Unique candidate (except against the trivially-true "
+                   "one) do not finish under CBMC within 300 s and are NOT part of the claim; for the 12 classes whose "
+                   "candidates carry equal substitutions the order-independence assertion is replaced by idempotence "
+                   "(combine returns its first argument there); three of those (a constrained ground Unique on either side) do not finish either - all listed in harness/solve/src/c13_pairs.rs; declaration-order independence of WHOLE solves (program lowering, clause enumeration, "
                    "merge_into_guidance's arrival order, the engines) - those need solver runs, which do not finish "
                    "under CBMC (DESIGN.md §4.1); this check decides only the commutativity of the combination step",
         "assumptions": ["both candidates are canonical over the same binder list"],
